@@ -481,7 +481,7 @@ func main() {
 	outs := make([]string, workers)
 	errs := make([]error, workers)
 	stderrs := make([]bytes.Buffer, workers)
-	deadline := time.Duration(budget)*time.Second*3 + 10*time.Minute
+	deadline := time.Duration(budget)*time.Second*3 + 4*time.Minute
 	for i := 0; i < workers; i++ {
 		outs[i] = filepath.Join(runDir, fmt.Sprintf("w%d.jsonl", i))
 		wg.Add(1)
@@ -588,7 +588,7 @@ func main() {
 		var kf *finding
 		for i := range findings {
 			f := &findings[i]
-			if f.Property == id && f.Status == "known" && f.Signature == v.sig {
+			if f.Property == id && f.Status == "known" && sigMatch(f.Signature, v.sig) {
 				kf = f
 			}
 		}
@@ -718,4 +718,29 @@ func envInt(k string, d int64) int64 {
 		}
 	}
 	return d
+}
+
+// sigMatch matches a violation signature against a known-finding pattern in which '*' stands for
+// any (possibly empty) text; without '*' the match is exact.
+func sigMatch(pattern, sig string) bool {
+	parts := strings.Split(pattern, "*")
+	if len(parts) == 1 {
+		return pattern == sig
+	}
+	if !strings.HasPrefix(sig, parts[0]) {
+		return false
+	}
+	rest := sig[len(parts[0]):]
+	for i := 1; i < len(parts); i++ {
+		p := parts[i]
+		if i == len(parts)-1 {
+			return strings.HasSuffix(rest, p)
+		}
+		j := strings.Index(rest, p)
+		if j < 0 {
+			return false
+		}
+		rest = rest[j+len(p):]
+	}
+	return true
 }
